@@ -39,6 +39,10 @@ def small_trees(g):
         yield ("bin", o1, ("cast", (("names", ["int"]), [], []), leaves[0]), ("sizeof_e", leaves[1]))
         yield ("bin", o1, ("call", leaves[0], [leaves[1], ("bin", o1, leaves[0], leaves[2])]), ("index", leaves[0], leaves[1]))
         yield ("comma", [("bin", o1, leaves[0], leaves[1]), ("comma", [leaves[0], leaves[1]]), leaves[2]])
+        yield ("comma", [("comma", [leaves[0], ("bin", o1, leaves[1], leaves[2])]), leaves[2]])
+        yield ("comma", [leaves[0], ("comma", [("comma", [leaves[0], leaves[1]]), ("bin", o1, leaves[1], leaves[2])])])
+        yield ("call", leaves[0], [("comma", [leaves[1], leaves[2]]), ("cond", leaves[0], ("comma", [("comma", [leaves[0], leaves[1]]), leaves[2]]), leaves[1])])
+        yield ("index", leaves[0], ("comma", [("comma", [leaves[1], leaves[2]]), ("bin", o1, leaves[0], leaves[1])]))
         yield ("cond", leaves[0], ("comma", [leaves[1], ("assign", "=", leaves[2], leaves[0])]), ("bin", o1, leaves[1], leaves[2]))
         yield ("member", "->", ("member", ".", ("index", leaves[0], leaves[1]), "f"), "g")
         yield ("un", "*", ("post", "++", leaves[0]))
